@@ -91,18 +91,8 @@ func learnVelocities(c *core.Ctx, stream string) map[string]int {
 func velocityProblems(f *smfdec.File, p model.Piece, vel map[string]int) []string {
 	cur := "(default)"
 	var groups [][]smfdec.Event
-	var lastTick uint64
-	first := true
-	for _, e := range mergedEvents(f) {
-		if e.Kind != smfdec.NoteOn {
-			continue
-		}
-		if first || e.Tick != lastTick {
-			groups = append(groups, nil)
-		}
-		first = false
-		lastTick = e.Tick
-		groups[len(groups)-1] = append(groups[len(groups)-1], e)
+	for _, g := range onsetGroups(f) {
+		groups = append(groups, g.ons)
 	}
 	gi := 0
 	for i, in := range p.Inst {
@@ -192,7 +182,7 @@ func checkC07(c *core.Ctx) {
 	}
 
 	c.Stream("random", c.N(4000, 100000), func(i int, r *rand.Rand) {
-		p := model.RandPiece(r, model.GenOpts{MinLen: 1, MaxLen: c.N(10, 30), RestProb: 0.3, SettingProb: 0.3, TextProb: 0.25, KeyChanges: true, BassProb: 0.3, MaxDeg: 9})
+		p := model.RandPiece(r, model.GenOpts{MinLen: 1, MaxLen: c.N(10, 30), RestProb: 0.3, SettingProb: 0.3, TextProb: 0.25, KeyChanges: true, BassProb: 0.3, MaxDeg: 9, Tiny: true})
 		var f model.Flags
 		if r.Intn(3) == 0 {
 			if r.Intn(2) == 0 {
